@@ -138,6 +138,16 @@ func (k *r6client) counterAt(addr ssa.Value) string {
 	return ""
 }
 
+// exactCounterAt: the address is exactly a counter (not a field inside one).
+func (k *r6client) exactCounterAt(addr ssa.Value) string {
+	if rel, ok := recvPath(k.fn, addr); ok {
+		if full := joinPath(k.prefix, rel); full != "" && k.c.counters[full] {
+			return full
+		}
+	}
+	return ""
+}
+
 // holdsCounter: some counter lives at or below the field path.
 func (c *r6ctx) holdsCounter(path string) bool {
 	for cn := range c.counters {
@@ -199,10 +209,11 @@ func (k *r6client) recvField(addr ssa.Value) string {
 func (k *r6client) Instr(s r6state, in ssa.Instruction) (r6state, bool, []r6state) {
 	switch x := in.(type) {
 	case *ssa.Store:
-		// depth++ / depth--
-		if f := k.counterAt(x.Addr); f != "" {
+		// depth++ / depth-- on a counter that is an int itself; a store into a field of a stack-typed counter
+		// (x.current--: the element countdown kept in the top entry) is not a push or pop
+		if f := k.exactCounterAt(x.Addr); f != "" {
 			if bo, ok := x.Val.(*ssa.BinOp); ok && (bo.Op == token.ADD || bo.Op == token.SUB) {
-				if ld, ok := bo.X.(*ssa.UnOp); ok && ld.Op == token.MUL && k.counterAt(ld.X) == f && isIntConst(bo.Y, 1) {
+				if ld, ok := bo.X.(*ssa.UnOp); ok && ld.Op == token.MUL && k.exactCounterAt(ld.X) == f && isIntConst(bo.Y, 1) {
 					d := 1
 					if bo.Op == token.SUB {
 						d = -1
@@ -971,6 +982,16 @@ func lenTerminator(p *core.Prog, r *core.Result, es encoderSpec, named *types.Na
 				falseUses := blockUsesValue(b.Succs[1], prm)
 				if trueUses == falseUses {
 					continue
+				}
+				// a guard that refuses the value (the other branch returns an error) is not the count decision
+				other := b.Succs[0]
+				if trueUses {
+					other = b.Succs[1]
+				}
+				if ret, ok := other.Instrs[len(other.Instrs)-1].(*ssa.Return); ok {
+					if ei := errResultIndex(f.Signature); ei >= 0 && ei < len(ret.Results) && definitelyNonNilError(ret.Results[ei]) {
+						continue
+					}
 				}
 				if !trueUses {
 					lower, k = !lower, complementK(lower, k)
